@@ -53,7 +53,7 @@ def build(tier, seed):
                 continue
             dom = "tiny" if tier == "quick" else "small"
             txt = "s/8, s in [-7,7]" if dom == "tiny" else "s/8, s in [-127,127]"
-            items.append((Harness("c05_lay_%s_d%d" % (n, d), {"type": n, "degree": d, "input": "domain %s; SURROGATE math on both sides" % txt}, 3.0 + d, stubs="SURROGATE"),
+            items.append((Harness("c05_lay_%s_d%d" % (n, d), {"type": n, "degree": d, "input": "domain %s; SURROGATE math on both sides" % txt}, 3.0 + d, stubs="SURROGATE", neighbourhood=True),
                           "crate::c05_layered_f!(c05_lay_%s_d%d, %s, %s, crate::macros::any_%s_%s, %d, %d);" % (n, d, n, f, f, dom, d, d + 3)))
     meta = {
         "functions": ["DecoderArithmetic::{input_llr_quantize, llr_hard_decision, llr_to_var_message, llr_to_var_llr, var_llr_to_llr, send_var_messages, send_check_messages, update_check_messages_and_vars} for each of the 24 arithmetic types (one harness per monomorphisation)",
